@@ -33,8 +33,14 @@ pub fn throttle_collect(config: &Config, events: &EvRx, errors: &ErrTx, mut last
         // a batch without urgent event is handed on no earlier than the throttle duration after its first event was received
         r matches Ok(Some(_)) && final(env).throttle_const@ is Some && no_urgent(final(env).recvd@, old(env).recvd@.len() as int, final(env).recvd@.len() as int) ==>
             final(env).now@ >= acc_t(final(env).recvd@, final(env).verdicts@, old(env).recvd@.len() as int, final(env).recvd@.len() as int)[0] + final(env).throttle_const@->Some_0, // OBL:C02.throttle_collect.not_before_the_window_has_elapsed
+        // ... and within a bounded delay after the window ends, even if rejected events keep arriving: no later than the throttle duration after its
+        // first event was received, plus the time spent during this call inside the filterer, in sending filter errors and in timers firing late
+        r matches Ok(Some(_)) && final(env).throttle_const@ is Some ==>
+            final(env).now@ <= acc_t(final(env).recvd@, final(env).verdicts@, old(env).recvd@.len() as int, final(env).recvd@.len() as int)[0] + final(env).throttle_const@->Some_0
+                + (final(env).slack@ - old(env).slack@), // OBL:C02.throttle_collect.delivered_within_the_window_plus_processing_time
 //@ prologue
 env.mark = Ghost(env.recvd@.len() as int);
+env.slack_mark = Ghost(env.slack@);
 let ghost env0 = *env;
 //@ loop 0
 invariant
@@ -49,6 +55,13 @@ invariant
     no_urgent(env.recvd@, env.mark@, env.recvd@.len() as int), // OBL:C02.throttle_collect.inv_no_urgent_event_held_back
     set@.len() > 0 ==> last.t == env.last_now@ && batch_t(env).len() > 0 && last.t >= batch_t(env)[0], // OBL:C02.throttle_collect.inv_window_starts_at_first_event
     batch_t(env).len() == set@.len(),
+    env.slack@ >= env.slack_mark@,
+    env.slack_mark@ == env0.slack@, env.slack@ >= env.slack_mark@, env0.slack == old(env).slack,
+    // the window is opened right after the first event was received and filtered
+    set@.len() > 0 ==> last.t <= batch_t(env)[0] + (env.slack@ - env.slack_mark@), // OBL:C02.throttle_collect.delivered_within_the_window_plus_processing_time
+    set@.len() > 0 && env.throttle_const@ is Some ==> env.now@ <= batch_t(env)[0] + env.throttle_const@->Some_0 + (env.slack@ - env.slack_mark@), // OBL:C02.throttle_collect.delivered_within_the_window_plus_processing_time
+//@ hint after `set.push(event);`
+proof { assert(env.throttle_const@ is Some ==> env.now@ <= batch_t(env)[0] + env.throttle_const@->Some_0 + (env.slack@ - env.slack_mark@)); } // OBL:C02.throttle_collect.delivered_within_the_window_plus_processing_time
 //@ epilogue
 vx_unreachable()
 //@ end
